@@ -1,1 +1,73 @@
-From Lou Require Import Model.Pass.
+(* C06 — passes run in the documented order and compose (literal rules).  Statements only. *)
+From Coq Require Import List ZArith Bool Permutation.
+From Lou Require Import Gen.GConst Gen.GChain Model.Table Model.Ref Model.Compile Model.Engine Model.Pass Model.BackPass.
+From Lou Require Import Proofs.PassProofs.
+Import ListNotations.
+Local Open Scope Z_scope.
+
+(* the pass chain built with the insertion condition REGENERATED from addForwardPassRule is the
+   rule list ordered by decreasing literal length, then definition order *)
+Theorem chain_is_a_permutation : forall rules, Permutation (pass_chain rules) rules.
+Proof. exact PassProofs.chain_perm_l. Qed.
+
+Theorem chain_order : forall rules i j,
+  (forall a b, (a < b < length rules)%nat -> p_idx (nth a rules (mkPR 0 [] AOmit)) < p_idx (nth b rules (mkPR 0 [] AOmit))) ->
+  (i < j < length (pass_chain rules))%nat ->
+  let ri := nth i (pass_chain rules) (mkPR 0 [] AOmit) in
+  let rj := nth j (pass_chain rules) (mkPR 0 [] AOmit) in
+  litlen ri > litlen rj \/ (litlen ri = litlen rj /\ p_idx ri < p_idx rj).
+Proof. exact PassProofs.chain_order_l. Qed.
+Print Assumptions chain_order.
+
+(* the scanner applies the FIRST rule of the chain whose test matches at the position *)
+Theorem first_matching_rule : forall inp chain pos r m,
+  find_rule inp chain pos = Some (r, m) ->
+  exists pre post, chain = pre ++ r :: post /\ pass_test inp r pos = Some m /\
+                   forall r', In r' pre -> pass_test inp r' pos = None.
+Proof. exact PassProofs.find_rule_first_l. Qed.
+Print Assumptions first_matching_rule.
+
+Theorem no_rule_matches : forall inp chain pos,
+  find_rule inp chain pos = None -> forall r, In r chain -> pass_test inp r pos = None.
+Proof. exact PassProofs.find_rule_none_l. Qed.
+
+(* an accepted match never lies before the position and its three ranges are nested in order *)
+Theorem match_shape : forall inp r pos m, pass_test inp r pos = Some m ->
+  m_start m = pos /\ pos <= m_sr m /\ m_sr m <= m_er m /\ m_er m <= m_end m /\ m_end m <= len inp.
+Proof. exact PassProofs.match_shape_l. Qed.
+Print Assumptions match_shape.
+
+(* only the bracketed part is replaced: with enough room, a literal action emits the matched
+   prefix verbatim, then the replacement, and continues right after the bracketed part *)
+Theorem literal_action_replaces_only_the_bracketed_part : forall inp cap r m out pm cs,
+  p_act r = ALit cs -> 0 <= m_start m -> m_start m <= m_sr m -> m_sr m <= len inp ->
+  len out + (m_sr m - m_start m) + len cs <= cap ->
+  do_action inp cap r m out pm =
+    (out ++ slice inp (m_start m) (m_sr m) ++ cs,
+     pm ++ zrange (m_start m) (m_sr m) ++ repeat (m_sr m) (length cs),
+     Some (m_er m)).
+Proof. exact PassProofs.literal_action_l. Qed.
+
+(* position-map composition is composition: entry k of the composed map is the previous map at
+   the stage's entry k *)
+Theorem composition_is_composition : forall prev stage k, (k < length stage)%nat -> 0 <= nth k stage 0 ->
+  nth k (compose_fwd prev stage) 0 = nth_z prev (nth k stage 0).
+Proof. exact PassProofs.compose_nth_l. Qed.
+
+(* stage order of the forward driver: without correct rules and without pass2-4 rules the driver
+   is the main pass alone; stages that the table does not have are not run *)
+Theorem driver_main_only : forall t mode inp cap,
+  forward (mkPT t [] [] [] [] false 1) mode inp cap =
+  match translate_ref t mode inp cap with
+  | TOk consumed cells pm tr => DOk consumed cells pm tr
+  | TUnsupported => DUnsupported
+  | TOutOfFuel => DOutOfFuel
+  end.
+Proof. exact PassProofs.driver_main_only_l. Qed.
+Print Assumptions driver_main_only.
+
+(* a stage with no rules is the identity on what fits: it copies elements one by one *)
+Theorem empty_stage_copies : forall kind is_space inp cap, len inp <= cap -> 0 <= cap ->
+  run_stage kind [] is_space inp cap = SOk (len inp) inp (zrange 0 (len inp)) [].
+Proof. exact PassProofs.empty_stage_l. Qed.
+Print Assumptions empty_stage_copies.
